@@ -5,15 +5,17 @@ at the end of harness/checks/c17.py:run() for the thorough tier and never change
 
 spec:   spec/Logger.tla (actions Register, RegisterStandard, Write, SetCutoff, Cleanup, Main; invariants
         Log_OrderPreserved, Log_UnregisteredEaten, Log_FileCreatedLazily, Log_CleanupForgets, Log_ReRegisterRejected)
-TLC:    exhaustive check of two bounded instances (life cycle: 2 logs, one message shape, histories of length 5,
-        at most one Model.main(); write rules: Register('log') then all histories of length 3 over 9 message
-        shapes x 3 cutoffs) plus a seeded -simulate of a deeper instance (length 10, everything enabled)
-replay: every behaviour is executed on the real Logger (class-level registry of THIS process, workers are separate
-        processes) with files in a directory of its own under core.workdir('logger').  After every call the driver
+TLC:    exhaustive check of two bounded instances (life cycle: Register('log'), register_standard_logs, messages to
+        'log', cleanup, at most one Model.main() (with / without base name, solving / failing), all histories of length 5;
+        write rules: Register('log') then all histories of length 3 over 9 message shapes x 3 cut-offs) plus a
+        seeded -simulate of a deeper instance (length 10, six logs, two bases, everything enabled)
+replay: every behaviour is executed on the real Logger (class-level registry of the executing process; the workers are
+        separate processes) with its files in a directory under core.workdir('logger') that is empty when the
+        behaviour starts.  After every call the driver
         records the exception class, the keys of Logger.log_file_handles and the kind of every value, os.path.exists
         and the content of every file of the universe, the cut-off, and whether a file object the registry once
         held was dropped without being closed.  Mode "flush": open handles are flushed before their files are read,
-        so the content is judged after every call; mode "noflush" (every third behaviour, additionally): a file is
+        so the content is judged after every call; mode "noflush" (every fourth behaviour, additionally): a file is
         only read while no handle is open on it, i.e. nothing the observer does can complete a file that
         cleanup() forgot to close.  Every behaviour ends with Logger.cleanup() (recorded as a Cleanup event) and
         Logger.priority_cutoff = 10.
@@ -29,9 +31,13 @@ register_log / Model.main state, or an explicit `raise` of the code):
   Log_CleanupForgets      after cleanup() (also the one main() ends with) the registry is empty and every file object it
                           held is closed
   Log_ReRegisterRejected  register_log on a registered log raises ValueError and changes nothing
+Main(b, "fails"): the model names an undefined variable, main() raises; the registry must be empty afterwards all the
+same (Log_CleanupForgets) and earlier messages must still be in their files (Log_OrderPreserved).
 Conformance clauses (DRIFT only): exact text (indentation priority-1 spaces, newline rule, ' ' for an empty message),
 registry kinds, a filtered first message creating the file (modelled as found: the handle is fetched before the
 priority is looked at), which files main() touches, register_standard_logs raising / replacing.
+Replay of a replay file written for a violation of this extension (its case carries "ext"):
+  /venv/bin/python harness/loggercheck.py --replay <replay file>     (exit 1 = still violated, 0 = holds now)
 """
 import concurrent.futures
 import hashlib
@@ -138,13 +144,13 @@ def _blank(a):
             'c': a['c'], 'id': 0, 'exc': ''}
 
 
-def _run_main(base):
+def _run_main(base, fails):
     from sfc_models.models import Model, Country
     from sfc_models.sector import Sector
     mod = Model()
     c = Country(mod, 'C1', 'country')
     s = Sector(c, 'AA', 'sector')
-    s.AddVariable('P', 'driver', '0.5*LAG_P + 1.0')
+    s.AddVariable('P', 'driver', '0.5*LAG_P + UNDEFINED_Q' if fails else '0.5*LAG_P + 1.0')
     s.AddVariable('LAG_P', 'lag', 'P(k-1)')
     mod.MaxTime = 2
     if base is None:
@@ -190,7 +196,7 @@ def execute(hist, d, mode):
                 elif act == 'Main':
                     sys.stdout = open(os.devnull, 'w')
                     try:
-                        _run_main(None if a['b'] == 'none' else os.path.join(d, a['b']))
+                        _run_main(None if a['b'] == 'none' else os.path.join(d, a['b']), a['kind'] == 'fails')
                     finally:
                         sys.stdout.close()
                         sys.stdout = real_stdout
@@ -274,7 +280,7 @@ def judge(rep, behs, wd):
     items = []
     for i, b in enumerate(behs):
         items.append(('f%d' % i, b['hist']))
-        if i % 3 == 1:
+        if i % 4 == 1:
             items.append(('n%d' % i, b['hist']))
     t0 = time.time()
     observed = run_behaviours(items, wd)
@@ -352,7 +358,7 @@ def run_logger(rep):
     info['wall_s'] = round(time.time() - t_all, 2)
     rep.extra['extension_logger'] = info
     rep.rule += ('; extension Logger (thorough): all maximal behaviours of the bounded Logger instances + %d simulated '
-                 'ones, each executed on the real Logger (mode flush; every third one also mode noflush)' % INSTANCES[2][1])
+                 'ones, each executed on the real Logger (mode flush; every fourth one also mode noflush)' % INSTANCES[2][1])
     return info
 
 
